@@ -379,4 +379,70 @@ mod tests {
 
         Ok(())
     }
+
+    #[test]
+    fn test_data_with_oversized_cigar() -> Result<(), Box<dyn std::error::Error>> {
+        use std::num::NonZero;
+
+        use noodles_sam::{
+            alignment::{
+                RecordBuf,
+                record::{
+                    Flags,
+                    cigar::{Op, op::Kind},
+                    data::field::Tag,
+                },
+                record_buf::{Cigar as CigarBuf, Sequence, data::field::Value},
+            },
+            header::record::value::{Map, map::ReferenceSequence},
+        };
+
+        use crate::record::codec::encode;
+
+        const BASE_COUNT: usize = 65536;
+
+        let header = sam::Header::builder()
+            .add_reference_sequence(
+                "sq0",
+                Map::<ReferenceSequence>::new(const { NonZero::new(131072).unwrap() }),
+            )
+            .build();
+
+        let cigar = CigarBuf::from(vec![Op::new(Kind::Match, 1); BASE_COUNT]);
+        let sequence = Sequence::from(vec![b'A'; BASE_COUNT]);
+
+        let record_buf = RecordBuf::builder()
+            .set_flags(Flags::empty())
+            .set_reference_sequence_id(0)
+            .set_alignment_start(Position::MIN)
+            .set_cigar(cigar)
+            .set_sequence(sequence)
+            .set_data(
+                [(Tag::ALIGNMENT_HIT_COUNT, Value::from(1))]
+                    .into_iter()
+                    .collect(),
+            )
+            .build();
+
+        let mut buf = Vec::new();
+        encode(&mut buf, &header, &record_buf)?;
+        let record = Record(buf);
+
+        // The `CG` field is the CIGAR, not a data field.
+        let data = record.data();
+        assert!(!data.is_empty());
+        assert!(data.get(&Tag::CIGAR).is_none());
+
+        let tags: Vec<_> = data
+            .iter()
+            .map(|result| result.map(|(tag, _)| tag))
+            .collect::<io::Result<_>>()?;
+
+        assert_eq!(tags, [Tag::ALIGNMENT_HIT_COUNT]);
+
+        let actual = RecordBuf::try_from_alignment_record(&header, &record)?;
+        assert_eq!(actual, record_buf);
+
+        Ok(())
+    }
 }
